@@ -100,6 +100,7 @@ func (qs *QueryStore) RebuildIndexes() error {
 		}
 	}
 
+	verifPoint("rebuild.dropped", "")
 	// Create new index entries in a single transaction
 	return qs.st.DB.Update(func(txn *badger.Txn) error {
 		t := reflect.TypeOf(qs.st.Type())
@@ -174,6 +175,7 @@ func (qs *QueryStore) Flush() {
 
 func (qs *QueryStore) handleChange(id string, before, after interface{}) {
 	qs.tq.Do(func() {
+		verifPoint("index.task", id)
 		err := qs.updateIndex(id, before, after)
 		if err != nil {
 			if qs.log != nil {
@@ -225,6 +227,7 @@ func (qs *QueryStore) updateIndex(id string, before, after interface{}) error {
 	if err != nil {
 		return err
 	}
+	verifPoint("index.committed", id)
 	if errmsg != "" {
 		return errors.New("failed to update resource [" + id + "] index:" + errmsg)
 	}
